@@ -651,7 +651,7 @@ Qed.
 
 (* ---- booleans *)
 Definition eight : list (string * bool) :=
-  [("0", false); ("1", true); ("false", false); ("true", true); ("no", false); ("yes", true); ("off", false); ("on", true)].
+  [("0", false); ("1", true); ("false", false); ("no", false); ("off", false); ("on", true); ("true", true); ("yes", true)].
 
 Lemma bool_states_eight : bool_states = eight.
 Proof. reflexivity. Qed.
